@@ -298,6 +298,8 @@ func seqProfile0(prop, tier string) *SeqProfile {
 					Note: "negative control: key positions read before the next offset (the code before fix a5c0795, F16 = seeded change S116 at design level): a cursor skips a message for good"},
 				{Module: "KlevConcK.tla", Cfg: "conck_syncunlocked.cfg", Workers: 4, Timeout: 10 * time.Minute, Expect: "SYNC-ON-CLOSED-WRITER",
 					Note: "negative control: Sync releases writerMu before it fsyncs (seeded change S132 at design level): a rollover closes the writer under it"},
+				{Module: "KlevConcK.tla", Cfg: "conck_guardbroad.cfg", Workers: 8, Timeout: 10 * time.Minute, Expect: "GETBYTIME-NOT-LINEARIZABLE",
+					Note: "negative control: the over-broad guard of 86dfaca (no hand-off to ANY next segment once a head was seen empty; seeded change S137 at design level): a query in the gap between two older segments is not found"},
 				{Module: "KlevConcK.tla", Cfg: "conck_noguard.cfg", Workers: 4, Timeout: 10 * time.Minute, Expect: "GETBYTIME-NOT-LINEARIZABLE",
 					Note: "negative control: GetByTime hands off into a head segment it saw empty (the code before fixes ac9bbd1 / 86dfaca / 647863d, F02)"},
 				{Module: "Reader.tla", Cfg: tierS(tier, "reader_q.cfg", "reader_t.cfg"), Workers: 8, Timeout: 20 * time.Minute,
